@@ -34,13 +34,13 @@ WATCH = (os.path.join(runner.REPO, 'clastic') + os.sep, '<sinter')
 
 ROUTES = ['ok', 'stream', 'ctx', 'static-small', 'static-big', 'static-empty', 'static-empty', 'static-missing', 'static-oddtime', 'static-oddtime', 'reroute-branch', 'reroute-branch-noslash', 'reroute-branch-dslash', 'reroute-app', 'reroute-app', 'branch', 'missing', 'm405', 'boom',
           'http403', 'meta', 'meta-json', 'gz', 'cache', 'reroute-raise', 'reroute-ep', 'reroute-fn-ep', 'reroute-deco-raise', 'sub-ok', 'empty', 'bytes-big',
-          'static-noext-big', 'static-noext-big', 'static-noext-small', 'branch-ctl1', 'branch-ctl2', 'branch-ctl3']
+          'static-noext-big', 'static-noext-big', 'static-noext-small', 'branch-ctl1', 'branch-ctl2', 'branch-ctl3', 'http520', 'http520']
 PATH = {'ok': '/ok', 'stream': '/stream', 'ctx': '/ctx', 'static-small': '/s/a.txt', 'static-big': '/s/big.bin',
         'static-missing': '/s/nope', 'static-empty': '/s/empty.txt', 'static-oddtime': '/s/odd.txt', 'reroute-branch': '/rb/', 'reroute-branch-noslash': '/rb',
         'reroute-branch-dslash': '/rb//', 'reroute-app': '/r3/some/path', 'branch': '/b', 'missing': '/missing', 'm405': '/g', 'boom': '/boom',
         'http403': '/forbidden', 'meta': '/meta/', 'meta-json': '/meta/json/', 'gz': '/gz', 'cache': '/cache',
         'reroute-raise': '/rr', 'reroute-ep': '/r2', 'reroute-fn-ep': '/r4', 'reroute-deco-raise': '/r5',
-        'branch-ctl1': '/bx/q%01', 'branch-ctl2': '/bx/a%00b%1F', 'branch-ctl3': '/bx/%7F%0B%1B[31m',
+        'http520': '/http520', 'branch-ctl1': '/bx/q%01', 'branch-ctl2': '/bx/a%00b%1F', 'branch-ctl3': '/bx/%7F%0B%1B[31m',
         'static-noext-big': '/s/LICENSE', 'static-noext-small': '/s/README', 'sub-ok': '/in/x', 'empty': '/empty', 'bytes-big': '/big'}
 METHODS = ['GET', 'GET', 'HEAD', 'POST', 'OPTIONS']
 HEADER_SETS = [{'If-Modified-Since': 'Fri, 01 Jan 2100 00:00:00 GMT'}, {'If-Modified-Since': 'Thu, 01 Jan 1970 00:00:10 GMT'},
@@ -187,7 +187,7 @@ class C13(Check):
     level_text = ('Seeded search over server behaviours x response kinds x wrapper stacks with a protocol monitor; the '
                   'route-kind x method x consumption x file-wrapper grid is swept once per run for a sampled wrapper stack.')
     level_note = 'Trusted: wsgiref.validate as the reading of PEP 3333; the monitor in sim/core/gateway.py.'
-    required_probes = ('environ-without-optional-keys', 'query-string-of-raw-bytes', 'range-request-on-static-file', 'wrapper-object-falsy-at-construction', 'filesystem-error-after-the-file-was-opened', 'big-file-without-extension-served', 'reroute-target-with-other-parameter-names', 'wrapper-passes-copy-of-environ', 'wrapper-decorates-start-response', 'empty-file-through-server-file-wrapper', 'reroute-to-wrapped-application', 'conditional-static-304', 'reroute-through-rewritten-path', 'first-requests-concurrent', 'file-released-after-abort', 'file-released-without-iteration', 'head-no-body', 'reroute-same-environ',
+    required_probes = ('error-handler-switched-after-construction', 'environ-without-optional-keys', 'query-string-of-raw-bytes', 'range-request-on-static-file', 'wrapper-object-falsy-at-construction', 'filesystem-error-after-the-file-was-opened', 'big-file-without-extension-served', 'reroute-target-with-other-parameter-names', 'wrapper-passes-copy-of-environ', 'wrapper-decorates-start-response', 'empty-file-through-server-file-wrapper', 'reroute-to-wrapped-application', 'conditional-static-304', 'reroute-through-rewritten-path', 'first-requests-concurrent', 'file-released-after-abort', 'file-released-without-iteration', 'head-no-body', 'reroute-same-environ',
                        'custom-file-wrapper-used', 'debug-500', 'gzip-applied')
 
     def generate(self, seed, tier):
@@ -213,7 +213,7 @@ class C13(Check):
         route = pick(2, banned=nonuniq_used)
         nonuniq_used |= set(n for n in route if not types[n]['unique'])
         sib = pick(2, banned=nonuniq_used)       # a sibling embedded application with its own instances
-        cfg = {'debug': c.random() < 0.4, 'slash': c.choice(['redirect', 'redirect', 'rewrite', 'strict']), 'types': types, 'outer_wrappers': outer, 'sub_wrappers': sub, 'route_wrappers': route,
+        cfg = {'handler_switched': c.random() < 0.3, 'debug': c.random() < 0.4, 'slash': c.choice(['redirect', 'redirect', 'rewrite', 'strict']), 'types': types, 'outer_wrappers': outer, 'sub_wrappers': sub, 'route_wrappers': route,
                'sib_wrappers': sib}
         if c.random() < 0.5:
             # the application's very first requests arrive at the same time
@@ -285,6 +285,11 @@ class C13(Check):
         def rr():
             raise RerouteWSGI(target)
 
+        def http520():
+            # a status code the HTTP library has no phrase for, with the application's own wording
+            from clastic.errors import HTTPException
+            raise HTTPException(code=520, message='Origin unreachable \u2014 retry later', detail='upstream \u2603')
+
         # WSGI callables as they occur in the wild: PEP 3333 fixes the call, not the parameter NAMES
         def legacy_app(env, sr):
             return target(env, sr)
@@ -311,11 +316,16 @@ class C13(Check):
                   ('/b/', ok), ('/bx/<x>/', lambda x: ok()), GET('/g', ok), ('/boom', boom), ('/forbidden', forbidden), ('/meta/', MetaApplication()),
                   Route('/gz', compressible, middlewares=[GzipMiddleware()]),
                   Route('/cache', ok, middlewares=[HTTPCacheMiddleware()]),
-                  ('/rr', rr), ('/r2', RerouteWSGI(target)), ('/r4', RerouteWSGI(legacy_app)), ('/r5', rr5), ('/rb/', RerouteWSGI(target)),
+                  ('/http520', http520), ('/rr', rr), ('/r2', RerouteWSGI(target)), ('/r4', RerouteWSGI(legacy_app)), ('/r5', rr5), ('/rb/', RerouteWSGI(target)),
                   ('/r3/<rest*>', RerouteWSGI(target.inner_app)), ('/in', inner), ('/empty', empty), ('/big', big),
                   ('/in2', Application([('/y', ok)], middlewares=objs('t', cfg.get('sib_wrappers', []))))]
-        return Application(routes, middlewares=objs('o', cfg['outer_wrappers']), debug=cfg['debug'],
-                           slash_mode=cfg.get('slash', 'redirect'))
+        app = Application(routes, middlewares=objs('o', cfg['outer_wrappers']), debug=cfg['debug'],
+                          slash_mode=cfg.get('slash', 'redirect'))
+        if cfg.get('handler_switched'):
+            # the finished application is given another error handler (its public method): everything else stays
+            from clastic.errors import ErrorHandler, ContextualErrorHandler
+            app.set_error_handler(ContextualErrorHandler() if cfg['debug'] else ErrorHandler())
+        return app
 
     def execute(self, plan):
         res = RunResult()
@@ -347,6 +357,8 @@ class C13(Check):
                 except Exception as e:
                     res.violate(K + 'setup-failed:%s' % type(e).__name__, '%r %s' % (e, canon(cfg)))
                     return res
+                if cfg.get('handler_switched'):
+                    res.probe('error-handler-switched-after-construction')
                 fb = cfg.get('first_batch')
                 if fb:
                     self.first_batch(app, cfg, fb, res)
@@ -552,7 +564,7 @@ class C13(Check):
             return
         # --- a few status expectations (the rest is C06/C08 territory) -------
         expect = {'ok': 200, 'stream': 200, 'ctx': 200, 'static-small': 200, 'static-big': 200, 'static-empty': 200, 'static-noext-big': 200, 'static-noext-small': 200, 'static-missing': 404,
-                  'branch': 302, 'missing': 404, 'boom': 500, 'http403': 403, 'meta': 200, 'meta-json': 200, 'gz': 200,
+                  'branch': 302, 'missing': 404, 'boom': 500, 'http403': 403, 'http520': 520, 'meta': 200, 'meta-json': 200, 'gz': 200,
                   'cache': 200, 'sub-ok': 200, 'empty': 200, 'bytes-big': 200}
         want = expect.get(route)
         if 'Range' in op['headers'] and route.startswith('static'):
